@@ -1237,6 +1237,10 @@ def gen_constraint_scenario(rng, prof=None, tier='quick'):
     isa['sets']['vnum'] = [{'id': 'vn1', 'kind': 'numeric', 'code': None, 'pos': 'suffix', 'arg': {'size': bits, 'align': True, 'endian': None},
                             'valid': True}]
     isa['instrs']['lea'] = [variant(0xE3, 8, sets_parser(['vnum']))]
+    # membership in a numeric enumeration whose keys are small non-negative numbers
+    isa['sets']['nen'] = [{'id': 'ne2', 'kind': 'numeric_enumeration', 'code': None, 'pos': 'suffix', 'code_size': 4, 'code_dict': {1: 1, 2: 2, 4: 3, 8: 4},
+                           'arg': None, 'arg_dict': None}]
+    isa['instrs']['sel'] = [variant(0x9, 4, sets_parser(['nen']))]
     # slice_lsb without match_address_msb: nothing is cut off, so a value wider than the field does not fit
     isa['sets']['slb'] = [{'id': 'sb1', 'kind': 'address', 'code': None, 'pos': 'suffix', 'arg': {'size': ssz, 'align': ssz % 8 == 0, 'endian': None},
                            'zone': None, 'slice': True, 'msb': False}]
@@ -1257,12 +1261,18 @@ def gen_constraint_scenario(rng, prof=None, tier='quick'):
         if i > 0:
             at += rng.choice([0x10, 0x24, 0x31, 1 << ssz])
             stmts.append(['org', num(at), None])
-        k = rng.choice(['jps', 'jps', 'skp', 'lop', 'brb', 'tst', 'lea', 'ldz'])
+        k = rng.choice(['jps', 'jps', 'skp', 'lop', 'brb', 'tst', 'lea', 'ldz', 'sel'])
         if k == 'jps' and rng.random() < 0.3 and i > 0:
             # the jump is the last thing in its page: the page is that of the instruction's own address
             at = (at | mask) - rng.choice([0, 1])
             stmts[-1] = ['org', num(at), None]
-        if k == 'ldz':
+        if k == 'sel':
+            good, bad = [1, 2, 4, 8], [-1, -5, -7, -8, 0, 3, 9, 255]
+            v = rng.choice(good + (bad if risky_left else []))
+            risky_left = 0 if v in bad else risky_left
+            x = x_num(rng, v)
+            stmts.append(['asm', 'sel', [[x.text, x.toks]]])
+        elif k == 'ldz':
             good = [v_ for v_ in (0, 1, mask, mask // 2) if gs <= v_ <= ge]
             bad = [v_ for v_ in (mask + 1, at, at | mask, (mask + 1) * 3 + 2) if v_ > mask and gs <= v_ <= ge]
             pool = good + (bad if risky_left else [])
